@@ -1035,7 +1035,12 @@ def slice_with_int_dask_array_on_axis(x, idx, axis):
     # e.g. chunks=(..., (5, 3, 4), ...) -> offset=[0, 5, 8]
     offset = np.roll(np.cumsum(asarray_safe(x.chunks[axis], like=x._meta)), 1)
     offset[0] = 0
-    offset = from_array(offset, chunks=1)
+    # (a name of its own: from_array names by content, and an index array that
+    # happens to equal the offsets must not be confused with this helper, whose
+    # declared chunks are tampered with below)
+    offset = from_array(
+        offset, chunks=1, name="slice-offsets-" + tokenize(x.name, axis, offset)
+    )
     # Tamper with the declared chunks of offset to make blockwise align it with
     # x[axis]
     offset = Array(
